@@ -1076,32 +1076,20 @@ func TestVerifC06Server(t *testing.T) {
 		if wireTried {
 			k += "-wire"
 		}
+		// classes of input that used to trip the four findings fixed by fb9758c (kept as kinds so
+		// that the evidence shows they are still generated; they must now pass strictly)
+		switch {
+		case !called && obs != nil && obs.Rcode == dns.RcodeBadVers && ecsCoq != "None":
+			k += "-ecs"
+		case !called && obs != nil && obs.Rcode == dns.RcodeBadVers && tr == vC06UDP && len(raw) > vC06Limit(body):
+			k += "-bigquery"
+		case called && extraOpt && gq.hasOpt && obs != nil:
+			k += "-extraopt"
+		case called && foreign && gq.hasOpt && obs != nil:
+			k += "-foreignopt"
+		}
 		fkey := ""
 		relax := 0
-		if !called && obs != nil && obs.Rcode == dns.RcodeBadVers && ecsCoq != "None" {
-			// F10: the BADVERS reply carries the request's additional section, forwarded ECS included
-			fkey = "badvers-ecs-reflected"
-			k += "-ecs"
-			relax = 3
-			if tr == vC06UDP && len(reply) > vC06Limit(body) {
-				relax = 7
-			}
-		} else if !called && obs != nil && obs.Rcode == dns.RcodeBadVers && tr == vC06UDP && len(reply) > vC06Limit(body) {
-			// F11: the BADVERS reply carries the request's other additional records and ignores the negotiated size
-			fkey = "badvers-reply-oversize"
-			k += "-oversize"
-			relax = 4
-		} else if called && extraOpt && gq.hasOpt && obs != nil {
-			// F5b: a second OPT of the downstream response is relayed untouched
-			fkey = "edns-extra-opt-relayed"
-			k += "-extraopt"
-			relax = 3
-		} else if called && foreign && gq.hasOpt && obs != nil {
-			// F5: the options of the downstream response's own OPT are relayed
-			fkey = "edns-foreign-option-relayed"
-			k += "-foreignopt"
-			relax = 1
-		}
 		nontrivial := !(called && !gq.hasOpt && sc.optMode == 0 && len(sc.ns) == 0)
 		rec := map[string]any{
 			"k": k, "coq": coq, "nontrivial": nontrivial,
